@@ -46,10 +46,10 @@ func runC05(p *Program, e *Engine, r *Result, tier string) {
 		!a.require(len(ro.Locks) >= 1, "bookkeeping mutex") {
 		return
 	}
-	c05R1(a)
+	c05R1(a, "C05.R1")
 	c05R2(a)
 	c05R3(a)
-	c05R4(a)
+	c05R4(a, "C05.R4")
 }
 
 type siteAgg struct {
@@ -62,7 +62,7 @@ type siteAgg struct {
 }
 
 // R1: no blocking operation while a lock may be held.
-func c05R1(a *An) {
+func c05R1(a *An, rule string) {
 	agg := map[string]*siteAgg{}
 	var order []string
 	for _, root := range a.roots() {
@@ -103,7 +103,7 @@ func c05R1(a *An) {
 		if !s.ok {
 			wit = strings.Join(uniq(s.witness), "; ")
 		}
-		a.R.ob("C05.R1", k, "blocking operation ("+s.desc+") must not execute while a bookkeeping mutex is held", s.pos, s.ok, wit)
+		a.R.ob(rule, k, "blocking operation ("+s.desc+") must not execute while a bookkeeping mutex is held", s.pos, s.ok, wit)
 	}
 }
 
@@ -302,7 +302,7 @@ func c05R3(a *An) {
 }
 
 // R4: lock order acyclic, no re-acquisition.
-func c05R4(a *An) {
+func c05R4(a *An, rule string) {
 	edges := map[string]map[string]string{}
 	seen := map[string]bool{}
 	for _, root := range a.roots() {
@@ -328,9 +328,9 @@ func c05R4(a *An) {
 						wit = sprintf("%s is (possibly) already held here via %s: self-deadlock", id, v.Ctx.chain())
 					}
 					if !seen[key] {
-						a.R.ob("C05.R4", key, "a mutex must not be acquired while it is already held", a.P.instrPos(v.Instr), !re, wit)
+						a.R.ob(rule, key, "a mutex must not be acquired while it is already held", a.P.instrPos(v.Instr), !re, wit)
 					} else if re {
-						a.R.ob("C05.R4", key+"#reacquire", "a mutex must not be acquired while it is already held", a.P.instrPos(v.Instr), false, wit)
+						a.R.ob(rule, key+"#reacquire", "a mutex must not be acquired while it is already held", a.P.instrPos(v.Instr), false, wit)
 					}
 				}
 				seen[key] = true
@@ -397,5 +397,5 @@ func c05R4(a *An) {
 	if !acyclic {
 		wit = "cycle " + strings.Join(cyc, " -> ") + "; " + wit
 	}
-	a.R.ob("C05.R4", "lock-order", "the lock-order graph over all API and reader contexts is acyclic", "-", acyclic, wit)
+	a.R.ob(rule, "lock-order", "the lock-order graph over all API and reader contexts is acyclic", "-", acyclic, wit)
 }
